@@ -84,17 +84,20 @@ namespace Rj
 open FS
 
 /-- what is assumed of the destination below the doer's root `r`, and of its listing -/
-structure DestWF (fs : FS) (r : FPath) (ld : List (FPath × Node)) : Prop where
+structure DestWF (vis : FPath → Bool) (fs : FS) (r : FPath) (ld : List (FPath × Node)) : Prop where
   rootFolder : fs.get r = some .folder
   rootAnc : ∀ k, k < r.length → fs.get (r.take k) = some .folder
   closed : ∀ p, p ≠ [] → fs.get (r ++ p) ≠ none → fs.get (r ++ p.dropLast) = some .folder
-  listed : ∀ p n, (p, n) ∈ ld ↔ (p ≠ [] ∧ fs.get (r ++ p) = some n)
+  /-- the listing holds exactly the entries the filters let through (`vis`) -/
+  listed : ∀ p n, (p, n) ∈ ld ↔ (p ≠ [] ∧ vis p = true ∧ fs.get (r ++ p) = some n)
   parentFirst : ld.Pairwise (fun a b => ¬ b.1 <+: a.1)
 
 /-- what is assumed of the source tree and its listing -/
-structure SrcWF (src : FPath → Option SEntry) (ls : List (FPath × SEntry)) : Prop where
+structure SrcWF (vis : FPath → Bool) (src : FPath → Option SEntry) (ls : List (FPath × SEntry)) : Prop where
   closed : ∀ p, p ≠ [] → src p ≠ none → p.dropLast ≠ [] → src p.dropLast = some .folder
-  listed : ∀ p e, (p, e) ∈ ls ↔ (p ≠ [] ∧ src p = some e)
+  listed : ∀ p e, (p, e) ∈ ls ↔ (p ≠ [] ∧ vis p = true ∧ src p = some e)
+  /-- an excluded folder hides everything beneath it: what is visible has visible ancestors -/
+  visPrefix : ∀ p k, vis p = true → vis (p.take k) = true
   parentFirst : ls.Pairwise (fun a b => ¬ b.1 <+: a.1)
   links : ∀ p t, src p = some (.link t) → (∃ b, t = readLinkB b) ∧ writeLinkB '/' t ≠ [] ∧ (0 : UInt8) ∉ writeLinkB '/' t
 
@@ -109,7 +112,7 @@ theorem planDel_pairwise {src : FPath → Option SEntry} {ld : List (FPath × No
   exact h.filter _
 
 /-- all proper prefixes of an existing destination path below the root are folders -/
-theorem dest_prefix_folder {fs : FS} {r : FPath} {ld : List (FPath × Node)} (hw : DestWF fs r ld)
+theorem dest_prefix_folder {vis : FPath → Bool} {fs : FS} {r : FPath} {ld : List (FPath × Node)} (hw : DestWF vis fs r ld)
     (p : FPath) (hp : fs.get (r ++ p) ≠ none) (k : Nat) (hk : k < p.length) : fs.get (r ++ p.take k) = some .folder := by
   have := prefixes_folders (fun q => fs.get (r ++ q)) Node.folder
     (fun q hq hq' => hw.closed q hq hq') p hp k hk
@@ -149,8 +152,9 @@ theorem append_inj_left' (r p q : FPath) : r ++ q = r ++ p ↔ q = p := List.app
 
 /-- **The delete phase.**  Processing the planned deletions in order, every call succeeds (no error, no
 link followed), and afterwards exactly the planned paths are gone; nothing outside the root changed. -/
-theorem run_dels {fs0 : FS} {r : FPath} {ld : List (FPath × Node)} {src : FPath → Option SEntry}
-    {ls : List (FPath × SEntry)} (hw : DestWF fs0 r ld) (hs : SrcWF src ls)
+theorem run_dels {vis : FPath → Bool} {fs0 : FS} {r : FPath} {ld : List (FPath × Node)} {src : FPath → Option SEntry}
+    {ls : List (FPath × SEntry)} (hw : DestWF vis fs0 r ld) (hs : SrcWF vis src ls)
+    (hsafe : ∀ p c n, (p, Node.folder) ∈ planDel src ld → fs0.get (r ++ (p ++ [c])) = some n → vis (p ++ [c]) = true)
     (todo : List (FPath × Node)) :
     ∀ (processed : List (FPath × Node)) (fs : FS),
       planDel src ld = processed ++ todo →
@@ -172,7 +176,7 @@ theorem run_dels {fs0 : FS} {r : FPath} {ld : List (FPath × Node)} {src : FPath
     obtain ⟨-, hpw2, hcross⟩ := hpw
     have hxmem : (p, n) ∈ planDel src ld := by rw [hsplit]; simp
     obtain ⟨hxld, hxdel⟩ := mem_planDel.mp hxmem
-    obtain ⟨hpne, hpn⟩ := (hw.listed p n).mp hxld
+    obtain ⟨hpne, -, hpn⟩ := (hw.listed p n).mp hxld
     -- nothing processed so far is a prefix of p
     have hnp : ∀ q, q <+: p → q ∉ processed.map (·.1) := by
       intro q hq hmem
@@ -219,7 +223,7 @@ theorem run_dels {fs0 : FS} {r : FPath} {ld : List (FPath × Node)} {src : FPath
             | none => rfl
             | some n' =>
               exfalso
-              have hcld : (p ++ [c], n') ∈ ld := (hw.listed _ _).mpr ⟨by simp, hc⟩
+              have hcld : (p ++ [c], n') ∈ ld := (hw.listed _ _).mpr ⟨by simp, hsafe p c n' hxmem hc, hc⟩
               have hsrcp : ¬ (src p = some .folder) := by
                 intro e; simp [needDel, e, compatible] at hxdel
               have hsrcc : src (p ++ [c]) = none := by
@@ -343,7 +347,7 @@ theorem mem_planCpy {dst : FPath → Option Node} {ls : List (FPath × SEntry)} 
   simp [planCpy, List.mem_filter]
 
 /-- the source's proper prefixes of an existing path are folders -/
-theorem src_prefix_folder {src : FPath → Option SEntry} {ls : List (FPath × SEntry)} (hs : SrcWF src ls)
+theorem src_prefix_folder {vis : FPath → Bool} {src : FPath → Option SEntry} {ls : List (FPath × SEntry)} (hs : SrcWF vis src ls)
     (p : FPath) (hp : src p ≠ none) (k : Nat) (hk0 : 0 < k) (hk : k < p.length) : src (p.take k) = some .folder := by
   have hne : p ≠ [] := by intro e; subst e; simp at hk
   have := prefixes_folders (fun q => if q = [] then some SEntry.folder else src q) SEntry.folder
@@ -359,17 +363,17 @@ theorem src_prefix_folder {src : FPath → Option SEntry} {ls : List (FPath × S
     rw [List.length_take, List.length_nil] at this; omega
   simpa [hne'] using this
 
-theorem dels_key_listed {fs0 : FS} {r : FPath} {ld : List (FPath × Node)} {src : FPath → Option SEntry}
-    (hw : DestWF fs0 r ld) {q : FPath} (h : q ∈ (planDel src ld).map (·.1)) :
+theorem dels_key_listed {vis : FPath → Bool} {fs0 : FS} {r : FPath} {ld : List (FPath × Node)} {src : FPath → Option SEntry}
+    (hw : DestWF vis fs0 r ld) {q : FPath} (h : q ∈ (planDel src ld).map (·.1)) :
     ∃ n, fs0.get (r ++ q) = some n ∧ needDel src (q, n) = true ∧ q ≠ [] := by
   obtain ⟨a, ha, rfl⟩ := List.mem_map.mp h
   obtain ⟨h1, h2⟩ := mem_planDel.mp ha
-  obtain ⟨h3, h4⟩ := (hw.listed a.1 a.2).mp h1
+  obtain ⟨h3, -, h4⟩ := (hw.listed a.1 a.2).mp h1
   exact ⟨a.2, h4, h2, h3⟩
 
 /-- **The copy phase.** -/
-theorem run_cpys {fs0 : FS} {r : FPath} {ld : List (FPath × Node)} {src : FPath → Option SEntry}
-    {ls : List (FPath × SEntry)} (hw : DestWF fs0 r ld) (hs : SrcWF src ls)
+theorem run_cpys {vis : FPath → Bool} {fs0 : FS} {r : FPath} {ld : List (FPath × Node)} {src : FPath → Option SEntry}
+    {ls : List (FPath × SEntry)} (hw : DestWF vis fs0 r ld) (hs : SrcWF vis src ls)
     (todo : List (FPath × SEntry)) :
     ∀ (processed : List (FPath × SEntry)) (fs : FS),
       planCpy (fun p => fs0.get (r ++ p)) ls = processed ++ todo →
@@ -393,7 +397,7 @@ theorem run_cpys {fs0 : FS} {r : FPath} {ld : List (FPath × Node)} {src : FPath
     obtain ⟨-, hpw2, hcross⟩ := hpw
     have hxmem : (p, e) ∈ planCpy (fun p => fs0.get (r ++ p)) ls := by rw [hsplit]; simp
     obtain ⟨hxls, hxcpy⟩ := mem_planCpy.mp hxmem
-    obtain ⟨hpne, hpe⟩ := (hs.listed p e).mp hxls
+    obtain ⟨hpne, hpvis, hpe⟩ := (hs.listed p e).mp hxls
     have hpnot : p ∉ processed.map (·.1) := by
       intro hmem
       obtain ⟨a, ha, e1⟩ := List.mem_map.mp hmem
@@ -438,7 +442,7 @@ theorem run_cpys {fs0 : FS} {r : FPath} {ld : List (FPath × Node)} {src : FPath
             | true =>
               exfalso
               have hm : (p.take k, SEntry.folder) ∈ planCpy (fun p => fs0.get (r ++ p)) ls :=
-                mem_planCpy.mpr ⟨(hs.listed _ _).mpr ⟨hqne, hsq⟩, hnc⟩
+                mem_planCpy.mpr ⟨(hs.listed _ _).mpr ⟨hqne, hs.visPrefix p k hpvis, hsq⟩, hnc⟩
               rw [hsplit] at hm
               rcases List.mem_append.mp hm with h1 | h1
               · exact hq (List.mem_map.mpr ⟨_, h1, rfl⟩)
@@ -485,7 +489,7 @@ theorem run_cpys {fs0 : FS} {r : FPath} {ld : List (FPath × Node)} {src : FPath
         · left
           simp only [afterDels]
           have : p ∈ (planDel src ld).map (·.1) :=
-            List.mem_map.mpr ⟨(p, n), mem_planDel.mpr ⟨(hw.listed _ _).mpr ⟨hpne, hd⟩, by simp [needDel, hpe, hcomp]⟩, rfl⟩
+            List.mem_map.mpr ⟨(p, n), mem_planDel.mpr ⟨(hw.listed _ _).mpr ⟨hpne, hpvis, hd⟩, by simp [needDel, hpe, hcomp]⟩, rfl⟩
           simp [this]
     -- the call succeeds and leaves `written e` at r ++ p
     have hop : ∃ fs1, cpyOp fs r (p, e) = .ok fs1 ∧ GetSet fs fs1 (r ++ p) (written e) := by
@@ -557,13 +561,15 @@ listed parents first): executing the plan — deletions in reverse listing order
 source listing order — never fails, never follows a link, changes nothing outside the root, and
 leaves at every relative path exactly what the source holds there (a same-time file and an equal
 link are left as they are). -/
-theorem sync_mirror {fs0 : FS} {r : FPath} {ld : List (FPath × Node)} {src : FPath → Option SEntry}
-    {ls : List (FPath × SEntry)} (hw : DestWF fs0 r ld) (hs : SrcWF src ls) :
+theorem sync_mirror {vis : FPath → Bool} {fs0 : FS} {r : FPath} {ld : List (FPath × Node)} {src : FPath → Option SEntry}
+    {ls : List (FPath × SEntry)} (hw : DestWF vis fs0 r ld) (hs : SrcWF vis src ls)
+    (hsafe : ∀ p c n, (p, Node.folder) ∈ planDel src ld → fs0.get (r ++ (p ++ [c])) = some n → vis (p ++ [c]) = true) :
     ∃ fs', syncDest fs0 r src ls ld = .ok fs' ∧
       (∀ q, ¬ r <+: q → fs'.get q = fs0.get q) ∧
       fs'.get r = some .folder ∧
-      ∀ p, p ≠ [] → MirrorAt fs0 fs' r p (src p) := by
-  obtain ⟨fs1, hd, hd1, hd2⟩ := run_dels hw hs (planDel src ld) [] fs0 (by simp) (by simp) (fun _ _ => rfl)
+      (∀ p, p ≠ [] → vis p = true → MirrorAt fs0 fs' r p (src p)) ∧
+      (∀ p, vis p = false → fs'.get (r ++ p) = fs0.get (r ++ p)) := by
+  obtain ⟨fs1, hd, hd1, hd2⟩ := run_dels hw hs hsafe (planDel src ld) [] fs0 (by simp) (by simp) (fun _ _ => rfl)
   obtain ⟨fs2, hc, hc1, hc2⟩ := run_cpys hw hs (planCpy (fun p => fs0.get (r ++ p)) ls) [] fs1 (by simp)
     (by intro q; simp only [List.map_nil, List.not_mem_nil, ↓reduceIte, afterDels]; exact hd1 q) hd2
   have hnil_d : ([] : FPath) ∉ (planDel src ld).map (·.1) := by
@@ -572,18 +578,33 @@ theorem sync_mirror {fs0 : FS} {r : FPath} {ld : List (FPath × Node)} {src : FP
     intro hmem
     obtain ⟨a, ha, e1⟩ := List.mem_map.mp hmem
     exact ((hs.listed a.1 a.2).mp (mem_planCpy.mp ha).1).1 e1
-  refine ⟨fs2, by simp [syncDest, hd, hc, OpR.bind], hc2, ?_, ?_⟩
+  refine ⟨fs2, by simp [syncDest, hd, hc, OpR.bind], hc2, ?_, ?_, ?_⟩
   · have := hc1 []
     simp only [List.append_nil, hnil_c, ↓reduceIte, afterDels, hnil_d] at this
     rw [this]; exact hw.rootFolder
-  · intro p hpne
+  rotate_left
+  · -- what the filters hide is neither deleted nor written
+    intro p hvis
+    have hfin := hc1 p
+    have h1 : p ∉ (planCpy (fun p => fs0.get (r ++ p)) ls).map (·.1) := by
+      intro hmem
+      obtain ⟨a, ha, e1⟩ := List.mem_map.mp hmem
+      have := ((hs.listed a.1 a.2).mp (mem_planCpy.mp ha).1).2.1
+      rw [e1, hvis] at this; cases this
+    have h2 : p ∉ (planDel src ld).map (·.1) := by
+      intro hmem
+      obtain ⟨a, ha, e1⟩ := List.mem_map.mp hmem
+      have := ((hw.listed a.1 a.2).mp (mem_planDel.mp ha).1).2.1
+      rw [e1, hvis] at this; cases this
+    simpa [h1, afterDels, h2] using hfin
+  · intro p hpne hpvis
     have hfin := hc1 p
     cases hsp : src p with
     | none =>
       have hnot : p ∉ (planCpy (fun p => fs0.get (r ++ p)) ls).map (·.1) := by
         intro hmem
         obtain ⟨a, ha, e1⟩ := List.mem_map.mp hmem
-        have := ((hs.listed a.1 a.2).mp (mem_planCpy.mp ha).1).2
+        have := ((hs.listed a.1 a.2).mp (mem_planCpy.mp ha).1).2.2
         rw [e1, hsp] at this; cases this
       simp only [hnot, ↓reduceIte, afterDels] at hfin
       simp only [MirrorAt]
@@ -595,7 +616,7 @@ theorem sync_mirror {fs0 : FS} {r : FPath} {ld : List (FPath × Node)} {src : FP
         | none => rfl
         | some n =>
           exfalso; apply hnd
-          exact List.mem_map.mpr ⟨(p, n), mem_planDel.mpr ⟨(hw.listed _ _).mpr ⟨hpne, hg⟩, by simp [needDel, hsp]⟩, rfl⟩
+          exact List.mem_map.mpr ⟨(p, n), mem_planDel.mpr ⟨(hw.listed _ _).mpr ⟨hpne, hpvis, hg⟩, by simp [needDel, hsp]⟩, rfl⟩
     | some e =>
       by_cases hcp : p ∈ (planCpy (fun p => fs0.get (r ++ p)) ls).map (·.1)
       · -- copied: the path holds what was written
@@ -614,7 +635,7 @@ theorem sync_mirror {fs0 : FS} {r : FPath} {ld : List (FPath × Node)} {src : FP
           | false => rfl
           | true =>
             exfalso; apply hcp
-            exact List.mem_map.mpr ⟨(p, e), mem_planCpy.mpr ⟨(hs.listed _ _).mpr ⟨hpne, hsp⟩, hnc⟩, rfl⟩
+            exact List.mem_map.mpr ⟨(p, e), mem_planCpy.mpr ⟨(hs.listed _ _).mpr ⟨hpne, hpvis, hsp⟩, hnc⟩, rfl⟩
         simp only [needCpy] at hnc
         cases hg : fs0.get (r ++ p) with
         | none => simp [hg] at hnc
@@ -647,17 +668,17 @@ open FS
 /-- after the mirror state is reached, nothing is left to delete and nothing to copy: the plan of a
 second run against the destination as it now is (any complete listing `ld'` of it) is empty -/
 theorem second_plan_empty {fs0 fs' : FS} {r : FPath} {src : FPath → Option SEntry}
-    {ls : List (FPath × SEntry)} {ld' : List (FPath × Node)}
-    (hm : ∀ p, p ≠ [] → MirrorAt fs0 fs' r p (src p))
-    (hls : ∀ p e, (p, e) ∈ ls → p ≠ [] ∧ src p = some e)
-    (hld : ∀ p n, (p, n) ∈ ld' → p ≠ [] ∧ fs'.get (r ++ p) = some n) :
+    {ls : List (FPath × SEntry)} {ld' : List (FPath × Node)} {vis : FPath → Bool}
+    (hm : ∀ p, p ≠ [] → vis p = true → MirrorAt fs0 fs' r p (src p))
+    (hls : ∀ p e, (p, e) ∈ ls → p ≠ [] ∧ vis p = true ∧ src p = some e)
+    (hld : ∀ p n, (p, n) ∈ ld' → p ≠ [] ∧ vis p = true ∧ fs'.get (r ++ p) = some n) :
     planDel src ld' = [] ∧ planCpy (fun p => fs'.get (r ++ p)) ls = [] := by
   constructor
   · simp only [planDel, List.reverse_eq_nil_iff, List.filter_eq_nil_iff]
     intro x hx
     obtain ⟨p, n⟩ := x
-    obtain ⟨hp, hg⟩ := hld p n hx
-    have := hm p hp
+    obtain ⟨hp, hv, hg⟩ := hld p n hx
+    have := hm p hp hv
     simp only [needDel]
     cases hs : src p with
     | none => simp [hs, MirrorAt, hg] at this
@@ -675,8 +696,8 @@ theorem second_plan_empty {fs0 fs' : FS} {r : FPath} {src : FPath → Option SEn
   · simp only [planCpy, List.filter_eq_nil_iff]
     intro x hx
     obtain ⟨p, e⟩ := x
-    obtain ⟨hp, hs⟩ := hls p e hx
-    have := hm p hp
+    obtain ⟨hp, hv, hs⟩ := hls p e hx
+    have := hm p hp hv
     rw [hs] at this
     simp only [needCpy]
     cases e with
